@@ -63,7 +63,7 @@ def strat_case(draw, tier):
     gulp = max(1, -(-eff // nwrites))
     # pre: what is at the output path(s) before the writer starts - nothing / a few stray bytes / a file LONGER than the result
     return {"op": op, "layout": lay, "start": start, "nsamps": nsamps, "gulp": gulp, "p": draw(st.integers(0, 10**6)),
-            "pre": draw(st.sampled_from([0, 0, 1, 2]))}
+            "pre": draw(st.sampled_from([0, 0, 1, 2])), "prior": draw(vs.prior_use(n))}
 
 
 def run_op(case, paths, outdir):
@@ -77,7 +77,7 @@ def run_op(case, paths, outdir):
     start, nsamps, gulp = case["start"], case["nsamps"], case["gulp"]
     eff = N - start if nsamps is None else nsamps
     kw = {"gulp": gulp, "start": start, "nsamps": nsamps, "quiet": True, "description": "v"}
-    rd = FilReader(paths)
+    rd = vs.apply_prior_use(FilReader(paths), case.get("prior"))
     o = lambda n: os.path.join(outdir, n)  # noqa: E731
     p = case["p"]
     if op == "extract_samps":
